@@ -65,3 +65,90 @@ Ltac prd :=
          | |- context [match ?x with _ => _ end] => destruct x
          | |- context [if ?b then _ else _] => destruct b
          end.
+
+Lemma PRr_w_after_entry fx st s w e c : PR st s -> PR st (w_after_entry fx s w e c).
+Proof.
+  intros K. unfold w_after_entry. prd; prs.
+  apply PRr_fold; [intros st0 s0 [h k] K0; prs|]. prs.
+Qed.
+Lemma PRr_w_get fx st s w : PR st s -> PR st (w_get fx s w).
+Proof. intros K. unfold w_get. prd; first [apply PRr_w_after_entry; assumption | prs]. Qed.
+
+Lemma PRr_cli_reply fx st s op r res en : PR st s -> PR st (cli_reply fx s op r res en).
+Proof.
+  intros K. unfold cli_reply. prd; try assumption;
+  first [apply PRr_w_get; assumption | apply PRr_w_after_entry; prs | prs].
+Qed.
+
+Lemma PRr_finish_fix fx st s f e : PR st s -> PR st (finish_fix fx s f e).
+Proof. intros K. unfold finish_fix. prd; first [apply PRr_cli_reply; prs | prs]. Qed.
+
+Lemma PRr_activate_fix fx st s f : PR st s -> PR st (activate_fix fx s f).
+Proof.
+  intros K. unfold activate_fix. prd; try (apply PRr_finish_fix; assumption).
+  apply PRr_fold; [intros; prs|]. prs.
+Qed.
+
+Lemma PRr_wake fx n : forall st s, PR st s -> PR st (wake fx n s).
+Proof. induction n; intros st s K; cbn [wake]; [exact K|]. destruct (find _ _); [|exact K]. apply IHn. apply PRr_activate_fix. exact K. Qed.
+
+Lemma PRr_start_fix fx st s g tk c b r : PR st s -> PR st (start_fix fx s g tk c b r).
+Proof. intros K. unfold start_fix. prd; apply PRr_wake; [apply PRr_finish_fix|]; prs. Qed.
+
+Lemma PRr_fix_reply fx st s id err : PR st s -> PR st (fix_reply fx s id err).
+Proof.
+  intros K. unfold fix_reply. destruct (find_fix _ _) as [f|]; [|exact K].
+  destruct (negb _); [apply PRr_wake; apply PRr_finish_fix; exact K|].
+  destruct (1 <? f_wait f); [prs|].
+  pose proof (fr_change_tract _ pP ltac:(fr) s (f_term f) (f_tk f) (f_dv f + 1) (f_hosts f)) as Q.
+  destruct (change_tract _ _ _ _ _) as [s1 e]. cbn [fst] in Q.
+  apply PRr_wake. apply PRr_finish_fix. eapply PRr_eq; [exact Q|exact K].
+Qed.
+
+Lemma PRr_round_after_stats st s r : PR st s -> PR st (round_after_stats s r).
+Proof. intros K. unfold round_after_stats. prd; prs. Qed.
+
+Lemma PRr_stat_reply fx st s r tk h e sz stamp : PR st s -> PR st (stat_reply fx s r tk h e sz stamp).
+Proof.
+  intros K. unfold stat_reply. destruct (find_ptr _ _); [|exact K].
+  match goal with |- context [match pt_next ?p1 with _ => _ end] => destruct (pt_next p1) end; [|prs].
+  match goal with |- PR st (if ?c then _ else _) => destruct c end;
+  match goal with |- context [if ?c then start_fix _ _ _ _ _ _ _ else _] => destruct c end;
+  try apply PRr_round_after_stats; try apply PRr_start_fix; prs.
+Qed.
+
+Lemma PRr_cleanup st s g e : PR st s -> PR st (cleanup s g e).
+Proof. intros K. unfold cleanup. apply PRr_fold_pair; [|exact K]. intros st0 s0 j x K0. cbn [fst]. prs. Qed.
+
+Lemma PRr_enc_finish st s r e ok : PR st s -> PR st (enc_finish s r e ok).
+Proof. intros K. unfold enc_finish. apply PRr_round_check_over. destruct ok; [exact K|apply PRr_cleanup; exact K]. Qed.
+
+Lemma PRr_alloc_reply st s r e b w h : PR st s -> PR st (alloc_reply s r e b w h).
+Proof.
+  intros K. unfold alloc_reply. destruct (negb _); [prs|]. cbv zeta.
+  match goal with |- context [if negb ?v then _ else _] => destruct (negb v) end; [prs|].
+  apply PRr_round_check_over. apply PRr_fold; [|prs].
+  intros st0 s0 x K0. apply PRr_fold_pair; [|exact K0]. intros st1 s1 j y K1. cbn [fst]. destruct (j <? RS_N); prs.
+Qed.
+
+Lemma PRr_round_reply fx st s op rp res hint : PR st s -> PR st (round_reply fx s op rp res hint).
+Proof.
+  intros K. unfold round_reply. destruct (find_round _ _) as [r|]; [|exact K].
+  destruct (_ =? K_CtlStat); [apply PRr_stat_reply; exact K|].
+  destruct (_ =? K_Alloc); [apply PRr_alloc_reply; exact K|].
+  destruct (_ =? K_PackTracts).
+  { destruct (find_enc_chunk _ _); [|exact K]. cbv zeta. prd; first [apply PRr_enc_finish; exact K | prs]. }
+  destruct (_ =? K_RSEncode).
+  { destruct (find_enc_chunk _ _); [|exact K]. destruct (negb _); [apply PRr_enc_finish; exact K|]. cbv zeta.
+    apply PRr_fold; [intros st0 s0 [[[a b] c] d] K0; prs|prs]. }
+  destruct (_ =? K_SetVersion).
+  { destruct (find_enc_tract _ _); [|exact K]. cbv zeta. prd; first [apply PRr_enc_finish; exact K | prs]. }
+  destruct (_ =? K_Commit).
+  { destruct (find_enc_chunk _ _); [|exact K]. apply PRr_enc_finish; exact K. }
+  exact K.
+Qed.
+
+Lemma PR_deliver fx st e res en hint : PR st (deliver fx st e res en hint).
+Proof.
+  unfold deliver. prd; first [apply PRr_fix_reply | apply PRr_cli_reply | apply PRr_round_reply | idtac]; prs; apply PR_refl.
+Qed.
